@@ -63,8 +63,8 @@ RGB_OPS = st.one_of(
     op("blink", red=comp, green=comp, blue=comp, times=times_v, delay_ms=small_ms),
 )
 SERVO_OPS = st.one_of(
-    op("write", frac=st.one_of(st.floats(0, 1), st.sampled_from([0.0, 1.0, 0.5, -0.01, 1.01, 2.0, -1.0])), as_int=st.booleans()),
-    op("write_us", frac=st.one_of(st.floats(0, 1), st.sampled_from([0.0, 1.0, 0.5, -0.01, 1.01, 2.0, -1.0])), as_int=st.booleans()),
+    op("write", frac=st.one_of(st.floats(0, 1), st.sampled_from([0.0, 1.0, 0.5, -0.01, 1.01, 2.0, -1.0])), as_int=st.booleans(), feedback=st.booleans()),
+    op("write_us", frac=st.one_of(st.floats(0, 1), st.sampled_from([0.0, 1.0, 0.5, -0.01, 1.01, 2.0, -1.0])), as_int=st.booleans(), feedback=st.booleans()),
     op("write_raw", value=num), op("write_us_raw", value=num), op("get"),
 )
 MOTOR_OPS = st.one_of(
@@ -81,6 +81,9 @@ def finite_span(lo_hi):
 
 bounds_st = st.one_of(
     st.just((0.0, 180.0)), st.just((544.0, 2400.0)),
+    # ranges of real servos and their data sheets (the slope between such ranges is rarely a binary fraction)
+    st.sampled_from([(0.0, 170.0), (0.0, 120.0), (-90.0, 90.0), (10.0, 170.0), (0.0, 270.0), (0.0, 360.0), (1000.0, 2400.0), (900.0, 2000.0), (700.0, 2450.0), (500.0, 2500.0),
+                     (600.0, 2000.0), (1000.0, 2000.0), (0.0, 7.0), (3.0, 10.0), (-45.0, 45.0), (0.0, 100.0)]),
     st.tuples(st.floats(-1e4, 1e4), st.floats(-1e4, 1e4)).map(lambda t: (min(t), max(t))).filter(finite_span),
     st.tuples(st.integers(-500, 3000), st.integers(-500, 3000)).map(lambda t: (min(t), max(t))).filter(lambda t: t[0] < t[1]),
 )
@@ -304,11 +307,14 @@ def run_servo(ops, info):
             kw.update(min_pulse_us=p0, max_pulse_us=p1)
         s = h.A.Servo(info.get("pin", 9), **kw)
         fa0, fa1, fp0, fp1 = (Fraction(float(x)) for x in (a0, a1, p0, p1))
+        # with whole-number bounds the spans and end points are exact in binary floating point, so "within their bounds" holds without any
+        # rounding allowance (and the servo accepts its own reading back); other bounds get a 1e-9 relative allowance
+        exact_bounds = all(float(x).is_integer() and abs(x) <= 1e6 for x in (a0, a1, p0, p1))
 
         def inv(where):
             a, p = s.read(), s.read_us()
             need(isinstance(a, float) and isinstance(p, float), "servo-types", "floats", (a, p))
-            tol_a, tol_p = 1e-9 * float(fa1 - fa0), 1e-9 * float(fp1 - fp0)
+            tol_a, tol_p = (0.0, 0.0) if exact_bounds else (1e-9 * float(fa1 - fa0), 1e-9 * float(fp1 - fp0))
             need(a0 - tol_a <= a <= a1 + tol_a, "servo-angle-bounds", f"[{a0},{a1}]", f"{a} after {where}")
             need(p0 - tol_p <= p <= p1 + tol_p, "servo-pulse-bounds", f"[{p0},{p1}]", f"{p} after {where}")
             exact_p = fp0 + (Fraction(a) - fa0) / (fa1 - fa0) * (fp1 - fp0)
@@ -356,6 +362,13 @@ def run_servo(ops, info):
             if name in ("write_us", "write_us_raw"):
                 need(s.read_us() == float(val), "servo-write_us-read_us-roundtrip", float(val), s.read_us())
                 need(p0 <= val <= p1, "servo-accepted-out-of-range-pulse", f"[{p0},{p1}]", val)
+            if name != "get" and o.get("feedback") and exact_bounds:
+                # "stay within their bounds": the servo's own reading is a value it accepts back (write(read()) / write_us(read_us()))
+                try:
+                    s.write(s.read()) if name in ("write_us", "write_us_raw") else s.write_us(s.read_us())
+                except Exception as e:
+                    raise Fail("servo-own-reading-out-of-bounds", "write(read()) / write_us(read_us()) accepted", f"{e!r} after {o} (angle {s.read()!r}, pulse {s.read_us()!r})")
+                inv(f"feedback after {o}")
         return ok_calls, fail_then_ok
     finally:
         h.close()
